@@ -33,6 +33,10 @@ CFG = gen.Cfg(onesided=4, servable=3,
     work_pool=[0.0, 0.5, 1.0, 1.0, 2.0, 2.0, 3.0],
 )
 CFG_N = CFG.copy(nested="assembly")
+# contention on often-absent workers under the rules that read the PERT values (slack, earliest start): what the
+# allocation sees at the first step after a pause must be what it would have seen without the pause
+CFG_W = gen.Cfg(servable=0, facilities=False, max_time=[40], min_tasks=2, max_tasks=5, max_workers=3, abs_max=12, abs_p=1, abs_size=6, abs_long=0,
+                rules=[0, 0, 0, 1, 1], work_pool=[1.0, 2.0, 3.0, 4.0, 6.0, 8.0, 10.0], p_auto=0, max_deps_factor=1, per_task_rules=False, kinds=[0, 0, 0, 1], progress=False, project_abs=False)
 
 
 @st.composite
@@ -46,16 +50,41 @@ def _case(draw, cfg, tier):
     }
 
 
+@st.composite
+def _case_w(draw, cfg, tier):
+    case = draw(_case(cfg, tier))
+    spec = case["spec"]
+    n = len(spec["tasks"])
+    for tm in spec["teams"]:
+        tm["targets"] = list(range(n))
+        tm.pop("notask", None)
+    for w in spec["workers"]:
+        w["skills"] = {str(i): 1.0 for i in range(n) if draw(st.booleans())}
+        w["solo"] = False
+        if draw(st.booleans()):
+            # away for a stretch and back at a step where nothing else happens
+            a = draw(st.sampled_from([0, 0, 0, 1, 2, 4]))
+            w["abs"] = list(range(a, a + draw(st.integers(1, 6))))
+        else:
+            w["abs"] = []
+    if len(spec["deps"]) > 1 and draw(st.booleans()):
+        spec["deps"] = spec["deps"][:1]  # mostly parallel work
+    for t in spec["tasks"]:
+        t["fixw"] = None
+    gen.share_skills_by_name(spec)
+    return case
+
+
 def strategy(tier):
     if tier == "quick":
-        return st.one_of(_case(CFG, tier), _case(CFG, tier), _case(CFG_N, tier))
+        return st.one_of(_case(CFG, tier), _case(CFG_N, tier), _case_w(CFG_W, tier), _case_w(CFG_W, tier))
     big = dict(max_tasks=9, max_time=[40])
-    return st.one_of(_case(CFG.copy(**big), tier), _case(CFG.copy(**big), tier), _case(CFG_N.copy(**big), tier))
+    return st.one_of(_case(CFG.copy(**big), tier), _case(CFG.copy(**big), tier), _case(CFG_N.copy(**big), tier), _case_w(CFG_W.copy(max_tasks=7, max_workers=4), tier))
 
 
 def budget(tier):
     if tier == "quick":
-        return {"cases": 400, "shards": 4}
+        return {"cases": 1000, "shards": 8}
     return {"cases": 12000, "shards": 16}
 
 
